@@ -45,7 +45,20 @@ func safeDest(p rtcp.Packet) (out []uint32, pan string) {
 
 func runC10(c *bx.Ctx) {
 	c.Space("D")
-	forD(c, func(v ref.V) {
+	forD(c, func(v ref.V) { c10One(c, v) })
+	// values in which two SSRC-like fields coincide (duplicate list entries, sender == media, ...)
+	c.Space("coinciding-ssrcs")
+	for _, b := range ref.Builders(c.Thorough()) {
+		ref.Aliased(b, func() bool { return c.MineBlock(0) }, func(v ref.V) bool {
+			c.Add(1)
+			c10One(c, v)
+			return !c.Expired()
+		})
+	}
+}
+
+func c10One(c *bx.Ctx, v ref.V) {
+	{
 		want := ref.DestSSRC(v.P)
 		got, pan := safeDest(v.P)
 		c.T(1)
@@ -110,5 +123,5 @@ func runC10(c *bx.Ctx) {
 			c.NT()
 		}
 		c.Sample(func() interface{} { return map[string]string{"value": v.String(), "ssrcs": fmt.Sprintf("%x", want)} })
-	})
+	}
 }
